@@ -134,18 +134,25 @@ H(name="hdr_valid_file_format", crate="kestrel-crypto", mod="decrypt::verif_hdr_
 
 # ------------------------------------------------------------------ H-NOISE
 NOISE_ENV = ["crate::sha256, hkdf_noise, x25519, chapoly_{encrypt,decrypt}_noise as UNINTERPRETED functions (record in the initiator run, replay in the responder run; X25519 replays the commuted pair: DH(a,pub b) = DH(b,pub a))", E_ZERO]
-H(name="noise_write_lockstep", crate="kestrel-crypto", mod="noise::verif_noise", props=["C01", "C05", "C06", "C08"], est_s=400, timeout=2400, mem_gb=10,
-  desc="HandshakeState::{init_x, write_message} trace == Noise_X pattern of the Noise spec (h0 = padded protocol name; MixHash(prologue); pre-message MixHash(rs); e; es = DH(e, rs); s sealed under es key nonce 0 AD h; ss = DH(s, rs); payload sealed under ss key nonce 0 AD h; message = e||enc s||enc payload (128 bytes); hash = h; Split)",
-  funcs=["noise::HandshakeState::init_x", "noise::HandshakeState::write_message", "noise::HandshakeState::get_pubkey", "noise::SymmetricState::*", "noise::CipherState::*"],
-  bounds="all key material, prologue (4 bytes) and 32-byte payload; one handshake", env=NOISE_ENV, outside="the primitives themselves (C19); payloads other than 32 bytes")
-H(name="noise_read_lockstep", crate="kestrel-crypto", mod="noise::verif_noise", props=["C01", "C05", "C06"], est_s=400, timeout=2400, mem_gb=10,
+for _part, _what in (("hash", "the hash chain: five MixHash inputs (h0||prologue, h||rs, h||e, h||enc s, h||enc payload) and the handshake hash"),
+                     ("keys", "es = DH(e, rs), ss = DH(s, rs), MixKey chain HKDF(ck, dh) twice, Split = HKDF(ck, empty)"),
+                     ("seal", "s and payload sealed under the es / ss key, nonce 0, AD = h; message = e || enc s || enc payload (128 bytes)")):
+    H(name="noise_write_lockstep_" + _part, crate="kestrel-crypto", mod="noise::verif_noise", props=["C01", "C05", "C06", "C08"], est_s=500, timeout=3000, mem_gb=24, rlimit_gb=36,
+      desc="HandshakeState::{init_x, write_message} trace == Noise_X pattern of the Noise spec; this harness decides " + _what,
+      funcs=["noise::HandshakeState::init_x", "noise::HandshakeState::write_message", "noise::HandshakeState::get_pubkey", "noise::SymmetricState::*", "noise::CipherState::*"],
+      bounds="all key material, prologue (4 bytes) and 32-byte payload; one handshake", env=NOISE_ENV, outside="the primitives themselves (C19); payloads other than 32 bytes")
+H(name="noise_read_lockstep", crate="kestrel-crypto", mod="noise::verif_noise", props=["C01", "C05", "C06"], est_s=900, timeout=3000, mem_gb=30, rlimit_gb=36,
   desc="HandshakeState::{init_x, read_message} on a message built per the specification (trace tables filled from the spec with fresh values): recomputes the same hashes/keys, presents the commuted DH pairs, returns (payload, sender static key, same handshake hash)",
   funcs=["noise::HandshakeState::init_x", "noise::HandshakeState::read_message", "noise::HandshakeState::get_pubkey", "noise::SymmetricState::*", "noise::CipherState::*"],
   bounds="all key material, prologue and payload; one handshake", env=NOISE_ENV, outside="the primitives themselves (C19)")
+H(name="noise_ephemeral_consistency", crate="kestrel-crypto", mod="noise::verif_noise", props=["C07", "C08", "C06"], est_s=400, timeout=3000, mem_gb=16, rlimit_gb=36,
+  desc="for every combination of caller-supplied ephemeral arguments (Some/None x Some/None): the 32 bytes sent in clear are the public half of the private key used for es - the caller's pair, or a FRESH 32-byte CSPRNG draw and its derived public key; never anything derived from a static key",
+  funcs=["noise::HandshakeState::init_x", "noise::HandshakeState::write_message", "PrivateKey::generate", "PrivateKey::to_public"], bounds="all key material; 4 option combinations",
+  env=NOISE_ENV + ["secure_random -> fresh unconstrained bytes (logged)", "x25519_derive_public uninterpreted (logged)"], outside="")
 H(name="noise_dh_refusal", crate="kestrel-crypto", mod="noise::verif_noise", props=["C05"], est_s=200, timeout=1800,
   desc="write_message: an all-zero DH result at es or ss => Err(DhError), nothing sealed under a key derived from it", funcs=["noise::HandshakeState::write_message"], bounds="refusal at es or at ss; all key material", env=NOISE_ENV, outside="which points orion refuses (trusted base)")
-H(name="noise_decrypt_any_len", crate="kestrel-crypto", mod="noise::verif_noise", props=["C09"], est_s=300, timeout=1800,
-  desc="noise_decrypt on a handshake message of ANY content and ANY length 0..140 with unconstrained primitives: never a panic; < 96 bytes => Err",
+H(name="noise_decrypt_any_len", crate="kestrel-crypto", mod="noise::verif_noise", props=["C09", "C05"], auto_props=["C09"], est_s=300, timeout=1800,
+  desc="noise_decrypt on a handshake message of ANY content and ANY length 0..140 with unconstrained primitives: never a panic; < 96 bytes => Err; an all-zero DH result at es or ss (low-order ephemeral / sender key) => Err",
   funcs=["noise_decrypt", "noise::HandshakeState::read_message"], bounds="message length 0..140", env=["primitives return unconstrained results (AEAD: Err or any plaintext of length ct-16; DH: Err or any 32 bytes)", E_ZERO], outside="messages > 140 bytes (<= 65535 accepted by the code)")
 
 # ------------------------------------------------------------------ scrypt (scrypt.rs), modular lockstep
@@ -213,6 +220,9 @@ CMD_ENV = ["E-FS: in-memory model of the output path (File::create = create-or-t
            "E-CUT: core::fmt::write, alloc::fmt::format, std::io::{_print,_eprint}, Backtrace::capture produce nothing (message content is outside the claim)",
            "library entry points (key_encrypt/key_decrypt/pass_encrypt/pass_decrypt) and keyring primitives (open_keyring, unlock/lock_private_key, encode/decode_public_key, serialize_key) are recorders with unconstrained outcome; their own behaviour is C01-C07, C15, C17",
            E_ZERO]
+# drop glue of a (never captured: E-CUT) std Backtrace iterates over frame/symbol slices; cap those two loops
+BT_UNWIND = ["_RINvNtCs8xvirJzNMvV_4core3ptr9drop_glueSNtNtCs3GJ6w2eqr8A_3std9backtrace15BacktraceSymbolEBG_.0:1",
+             "_RINvNtCs8xvirJzNMvV_4core3ptr9drop_glueSNtNtCs3GJ6w2eqr8A_3std9backtrace14BacktraceFrameEBG_.0:1"]
 CMD_OUT = "real process exit code, getopts option tables, OS pipe/file semantics, message text; interactive retry loops (stdin is modelled as not a tty)"
 H(name="cmd_ondemand_file", crate="kestrel-cli", mod="commands::verif_cmd", props=["C13", "C04", "C12"], est_s=60, replay="model",
   desc="OnDemandFile: constructing it touches nothing; the file is created at the first write OR flush, exactly once, never before", funcs=["commands::OnDemandFile::{new, write, flush, ensure_created}"],
@@ -220,11 +230,12 @@ H(name="cmd_ondemand_file", crate="kestrel-cli", mod="commands::verif_cmd", prop
 H(name="cmd_gen_key_fs", crate="kestrel-cli", mod="commands::verif_cmd", props=["C14", "C13", "C16", "C07", "C12"], est_s=120, replay="model",
   desc="gen_key(Some(path)): invalid name / missing password => Err and the path untouched; else Ok, earlier contents are a byte prefix of the new contents (existing file never re-created), new file created once, flushed; private key = CSPRNG draw 1, salt = draw 2 (distinct), PublicKey = encode(derive_public(draw 1)), locked under the user's password",
   funcs=["commands::gen_key", "commands::open_output", "commands::OnDemandFile"], bounds="output path absent | present with any 0..4 bytes; one key generation from that arbitrary state (= the inductive step for any history)", env=CMD_ENV, outside=CMD_OUT + "; that the appended text parses (C17)")
-for _c, _p in (("cmd_decrypt_flow", ["C12", "C13", "C05"]), ("cmd_encrypt_flow", ["C12", "C13", "C07", "C05"]), ("cmd_pass_encrypt_flow", ["C12", "C13", "C07", "C02"]), ("cmd_pass_decrypt_flow", ["C12", "C13", "C02"])):
-    H(name=_c, crate="kestrel-cli", mod="commands::verif_cmd", props=_p, est_s=300, timeout=2400, replay="model",
+for _c, _p, _t in (("cmd_decrypt_flow", ["C12", "C13", "C05"], "thorough"), ("cmd_encrypt_flow", ["C12", "C13", "C07", "C05"], "thorough"),
+                   ("cmd_pass_encrypt_flow", ["C12", "C13", "C07", "C02"], "quick"), ("cmd_pass_decrypt_flow", ["C12", "C13", "C02"], "quick")):
+    H(name=_c, crate="kestrel-cli", mod="commands::verif_cmd", props=_p, est_s=600, timeout=(7200 if _t == "thorough" else 2400), tier=_t, optional=(_t == "thorough"), mem_gb=16, replay="model", unwindset=BT_UNWIND,
       desc="command returns Ok iff every pre-check passed and the library call returned Ok (errors never swallowed, success never manufactured); output path untouched unless and until the library writes; then it holds exactly what the library wrote; keys/passwords/salts handed to the library are the ones obtained (sender looked up by the authenticated key; salt = fresh CSPRNG draw)",
       funcs=["commands::" + _c.replace("cmd_", "").replace("_flow", ""), "commands::open_input", "commands::open_output", "commands::OnDemandFile"],
-      bounds="input file arg or stdin; output path absent | present (0..4 bytes); keyring missing / 1..2 entries / with or without private key; name a|b|absent; every outcome of password prompt, unlock, checksum, and library call with 0..2 writes before its result", env=CMD_ENV, outside=CMD_OUT)
+      bounds="input file argument (present or missing); output path absent | present (0..4 bytes); keyring missing / 1..2 entries / with or without private key; name a|b|absent; every outcome of password prompt, unlock, checksum, and library call with 0..2 writes before its result", env=CMD_ENV, outside=CMD_OUT)
 H(name="cmd_change_pass", crate="kestrel-cli", mod="commands::verif_cmd", props=["C16", "C07", "C12"], est_s=120, replay="model",
   desc="change_pass: unlock(given blob, OLD password); lock(THAT key, NEW password, salt = fresh 32-byte CSPRNG draw); one line printed; any failing step => Err, nothing locked/printed",
   funcs=["commands::change_pass"], bounds="one step from an arbitrary (key, blob, passwords) state", env=CMD_ENV, outside=CMD_OUT + "; text of the printed line")
@@ -235,16 +246,19 @@ H(name="main_exit_status", crate="kestrel-cli", mod="verif_main", props=["C12"],
 H(name="main_slice_args", crate="kestrel-cli", mod="verif_main", props=["C09", "C12"], est_s=30, replay="playback",
   desc="slice_args(args, idx) never panics: remainder after idx or empty", funcs=["slice_args"], bounds="0..4 args, idx 0..6", env=[], outside="")
 
-H(name="c17_name_roundtrip", crate="kestrel-cli", mod="keyring::verif_keyring", props=["C17", "C14"], est_s=600, timeout=2400, replay="model",
-  desc="the [Key] section text key generation writes (transcribed format) for ANY accepted name of 1..3 ASCII bytes without TAB parses back to exactly that name and public key, and is found by get_key",
+PARSER_OUT = "arbitrary UTF-8 texts and exhaustive token sequences: std's str::lines/trim/retain/memchr on symbolic text are out of reach of the bit-blasting back end in quick-tier time (DESIGN 6.1)"
+H(name="c17_name_roundtrip", crate="kestrel-cli", mod="keyring::verif_keyring", props=["C17", "C14"], tier="thorough", optional=True, est_s=3000, timeout=7200, mem_gb=16, replay="model",
+  desc="the [Key] section text key generation writes (transcribed format) for ANY accepted name of 1..2 ASCII bytes without TAB parses back to exactly that name and public key, and is found by get_key",
   funcs=["keyring::Keyring::new", "keyring::Keyring::parse_config", "keyring::Keyring::add_key", "keyring::Keyring::get_key", "keyring::EncodedPk::try_from"],
-  bounds="names of 1..3 ASCII bytes (no NUL, LF, TAB; no leading/trailing whitespace)", env=KR_ENV[2:3], outside="names > 3 bytes; non-ASCII names; serialize_key's own formatting (transcribed)")
-H(name="c17_name_roundtrip_tab", crate="kestrel-cli", mod="keyring::verif_keyring", props=["C17"], est_s=600, timeout=2400, replay="model",
-  desc="KNOWN FINDING F4: the same round trip for names that contain a TAB (expected to fail: the parser deletes every TAB)", funcs=["keyring::Keyring::parse_config"], bounds="names of 3 ASCII bytes with a TAB in the middle", env=KR_ENV[2:3], outside="")
-H(name="c17_sections", crate="kestrel-cli", mod="keyring::verif_keyring", props=["C17", "C09"], auto_props=["C09", "C17"], est_s=600, timeout=2400, replay="model",
-  desc="Keyring::new on 12 section shapes (complete pair, duplicate name, duplicate key, empty first/last section, field outside section, missing field, field twice, comments/blank/no final newline, junk, empty file): accepted iff the documented rule says so; entries = sections in order; never a panic",
-  funcs=["keyring::Keyring::new", "keyring::Keyring::parse_config", "keyring::Keyring::add_key"], bounds="12 concrete texts of <= 160 bytes selected by the solver (structure concrete, selection symbolic)", env=KR_ENV[2:3],
-  outside="arbitrary UTF-8 texts and exhaustive token sequences: std's str::lines/trim/retain on symbolic text are out of reach of the bit-blasting back end (DESIGN 6.1)")
+  bounds="names of 1..2 ASCII bytes (no NUL, LF, TAB; no leading/trailing whitespace)", env=KR_ENV[2:3], outside="names > 2 bytes; non-ASCII names; serialize_key's own formatting (transcribed)")
+H(name="c17_name_roundtrip_tab", crate="kestrel-cli", mod="keyring::verif_keyring", props=["C17"], est_s=300, timeout=2400, replay="model",
+  desc="KNOWN FINDING F4: the same round trip for the concrete name a<TAB>b (expected to fail: the parser deletes every TAB)", funcs=["keyring::Keyring::parse_config"], bounds="one concrete text", env=KR_ENV[2:3], outside="")
+H(name="c17_sections", crate="kestrel-cli", mod="keyring::verif_keyring", props=["C17"], tier="thorough", optional=True, est_s=3000, timeout=7200, mem_gb=16, replay="model",
+  desc="Keyring::new on two sections with symbolic one-byte names and symbolic key choice: accepted iff names differ and keys differ; entries in order",
+  funcs=["keyring::Keyring::new", "keyring::Keyring::parse_config", "keyring::Keyring::add_key"], bounds="names in a..c x a..c, same/different public key", env=KR_ENV[2:3], outside=PARSER_OUT)
+H(name="c17_shapes", crate="kestrel-cli", mod="keyring::verif_keyring", props=["C17", "C09"], auto_props=["C09", "C17"], est_s=600, timeout=3000, replay="model",
+  desc="Keyring::new on ten concrete section shapes (empty first/last section, field outside section, missing field, field twice, comments/blank/no final newline, junk, malformed private key, empty file): accepted iff the documented rule says so; entries = sections; never a panic",
+  funcs=["keyring::Keyring::new", "keyring::Keyring::parse_config", "keyring::Keyring::add_key"], bounds="ten concrete texts of <= 110 bytes, executed one after the other (concrete cases, not solver-chosen)", env=KR_ENV[2:3], outside=PARSER_OUT)
 
 A_AEAD = "ChaCha20-Poly1305 is modelled as an ideal AEAD (opens iff exactly what was sealed); real forgery probability is outside the claim"
 A_TB = "orion/ct-codecs/getopts/std implement their documented contracts (trusted base; Cargo.lock pins them)"
